@@ -17,6 +17,13 @@
    * contact.efc_address: write_contact sets every slot to -1; `_efc_contact_init[_flex]` stores
      for dim in range(ndim): `-1 if base+dim >= njmax else base+dim` (and efc_id[base+dim] = conid)
      BEFORE its non-zero guard, where base is what atomic_add(nefc, ndim) returned ([addr_of]).
+   * a REQUEST is an allocation the kernel actually performs: `_equality_connect` / `_equality_weld`
+     return before any counter is bumped when the equality is inactive or (since commit b0f4223) when
+     both bodies are welded to the world (body_weldid == 0, empty Jacobian chain, as MuJoCo C); such
+     tasks have no request (bin/props/C05.py derives the request lists with exactly these tests).
+   * the values stored into a row are not part of the allocator model; `_efc_row` is modelled by its
+     machine translation, and what the contact kernels pass to it (e.g. margin = 0 on the friction
+     rows of an elliptic cone, commit eb9a4e2) is covered by the differential oracle only.
    Not modelled: the Jacobian / position arithmetic of the builders (oracle only). *)
 From Coq Require Import ZArith List Bool String Reals.
 From VF Require Import Base.Loop Model.Alloc Model.Pipeline Gen.Skel_alloc Gen.Skel_pipeline Gen.Skel_constraint.
@@ -232,15 +239,39 @@ Definition b_direct (dmax s1 : R) : R := - s1 / dmax.
 Definition row_doc (k b imp invweight pos_aref margin vel fl : R) (type id : Z) : R * R * R * R * R * R * Z * Z :=
   (1 / Rmax (invweight * (1 - imp) / imp) MINVAL, vel, - k * imp * pos_aref - b * vel,
    pos_aref + margin, margin, fl, type, id).
-
-(* what the code computes, piecewise *)
-Definition k_code (flags : Z) (h s0 s1 dmax : R) : R :=
-  if Rle_dec s0 0 then - s0 / (dmax * dmax) else 1 / (dmax * dmax * tc_eff flags s0 h * tc_eff flags s0 h * s1 * s1).
-Definition b_code (flags : Z) (h s0 s1 dmax : R) : R :=
-  if Rle_dec s1 0 then - s1 / dmax else 2 / (dmax * tc_eff flags s0 h).
 Definition clampR (x lo hi : R) : R := Rmin (Rmax x lo) hi.
+
+(* mixed solref format: one entry positive, the other not; MuJoCo C (getsolparam) and, since commit
+   56e7974, the code replace such a pair by the default (0.02, 1) *)
+Definition mixed_solref (s0 s1 : R) : Prop := (0 < s0 /\ s1 <= 0) \/ (s0 <= 0 /\ 0 < s1).
+Definition eff_ref0 (s0 s1 : R) : R :=
+  if Rlt_dec 0 s0 then (if Rle_dec s1 0 then 1 / 50 else s0) else (if Rlt_dec 0 s1 then 1 / 50 else s0).
+Definition eff_ref1 (s0 s1 : R) : R :=
+  if Rlt_dec 0 s0 then (if Rle_dec s1 0 then 1 else s1) else (if Rlt_dec 0 s1 then 1 else s1).
+
+(* what the CURRENT code computes, piecewise ([width] is the raw solimp[2]) *)
+Definition k_code (flags : Z) (h s0 s1 dmax : R) : R :=
+  let r0 := eff_ref0 s0 s1 in let r1 := eff_ref1 s0 s1 in
+  if Rle_dec r0 0 then - r0 / (dmax * dmax)
+  else 1 / (dmax * dmax * tc_eff flags r0 h * tc_eff flags r0 h * r1 * r1).
+Definition b_code (flags : Z) (h s0 s1 dmax : R) : R :=
+  let r0 := eff_ref0 s0 s1 in let r1 := eff_ref1 s0 s1 in
+  if Rle_dec r1 0 then - r1 / dmax else 2 / (dmax * tc_eff flags r0 h).
 Definition imp_code (dmin dmax width mid p r : R) : R :=
+  if Rle_dec width MINVAL then 1 / 2 * (dmin + dmax)
+  else
+    let w := Rmax MINVAL width in
+    if Rlt_dec 1 (Rabs r / w) then dmax
+    else clampR (imp_doc dmin dmax w mid p r) (Rmin dmin dmax) (Rmax dmin dmax).
+
+(* DOCUMENTATION ONLY: what `_efc_row` computed before commit 56e7974 (no mixed-solref default, width
+   floored at MJ_MINVAL without the flat-function rule, wp.clamp(imp, dmin, dmax)); the three
+   deviations from MuJoCo C found by this check are stated about these definitions in
+   Proof/Assembly.v ([pre_fix_*]) and their witnesses are regression cases of bin/props/C05.py *)
+Definition k_code_old (flags : Z) (h s0 s1 dmax : R) : R :=
+  if Rle_dec s0 0 then - s0 / (dmax * dmax) else 1 / (dmax * dmax * tc_eff flags s0 h * tc_eff flags s0 h * s1 * s1).
+Definition b_code_old (flags : Z) (h s0 s1 dmax : R) : R :=
+  if Rle_dec s1 0 then - s1 / dmax else 2 / (dmax * tc_eff flags s0 h).
+Definition imp_code_old (dmin dmax width mid p r : R) : R :=
   let x := Rabs r / width in
   if Rlt_dec 1 x then dmax else clampR (imp_doc dmin dmax width mid p r) dmin dmax.
-
-Definition mixed_solref (s0 s1 : R) : Prop := (0 < s0 /\ s1 <= 0) \/ (s0 <= 0 /\ 0 < s1).
